@@ -3,6 +3,7 @@ package props
 import (
 	"fmt"
 
+	"verifsim/core"
 	"verifsim/harness"
 )
 
@@ -32,8 +33,78 @@ func init() {
 			"synthetic residue overwrites tag/scratch buffers, pixel buffers and pooled bufio.Reader buffers (0xFF / random / plausible patterns)",
 		},
 	}
+	nFresh := func(tier string, seed uint64) uint64 {
+		if tier == "thorough" {
+			return 512
+		}
+		return 96
+	}
+	freshOp := func(c *Ctx) *opCase {
+		// both campaigns draw the same operation for a run index: from lanes of their own that
+		// depend on (seed, run) only
+		c2 := *c
+		c2.Lanes = core.NewLanes(c.Seed, c.Prop, "fresh-probes", c.Run, nil, false)
+		return drawOp(&c2, c2.L("gen"), true)
+	}
 	p.Campaigns = []*Campaign{{
-		Name: "histories", Weight: 1,
+		// phase 0, every run in a fresh worker process and without touching the verif hooks: what
+		// an operation returns on true process-start state
+		Name: "fresh-probes", Phase: 0, Fresh: true, Enumerated: true, Weight: 1, N: nFresh,
+		Run: func(c *Ctx) {
+			o := freshOp(c)
+			c.Descf("fresh process: %s", o)
+			c.Dev.Budget = c08Budget(len(o.data))
+			harness.LogDefault()
+			res, _ := o.run(c, Delivery{})
+			if c.PlanOnly {
+				return
+			}
+			c.NonTrivial = true
+			canon := "budget"
+			if !isBudget(res) {
+				canon = res.Canon()
+				if res.Panic != nil {
+					canon = "panic:" + res.Panic.Class + ":" + res.Panic.Func
+				}
+			}
+			c.Export(fmt.Sprintf("fresh/%d", c.Run), fmt.Sprintf("%016x", harness.FNV([]byte(canon))))
+		},
+	}, {
+		// phase 1, in a long-lived worker after the histories: the same operations after Pristine()
+		// must return what they returned at process start - this validates that Pristine() is
+		// process-start state, and it sees state the hooks do not know (a cache added to the
+		// library would be invisible to the main oracle, whose both sides share it)
+		Name: "pristine-vs-fresh", Phase: 1, Enumerated: true, Weight: 1, N: nFresh,
+		Run: func(c *Ctx) {
+			o := freshOp(c)
+			c.Descf("after histories + Pristine(): %s", o)
+			want, ok := KV[fmt.Sprintf("fresh/%d", c.Run)]
+			if c.PlanOnly {
+				return
+			}
+			if !ok {
+				c.Inc("probe:fresh-result-missing (skipped)")
+				return
+			}
+			c.Dev.Budget = c08Budget(len(o.data))
+			harness.LogDefault()
+			harness.Pristine()
+			res, _ := o.run(c, Delivery{})
+			canon := "budget"
+			if !isBudget(res) {
+				canon = res.Canon()
+				if res.Panic != nil {
+					canon = "panic:" + res.Panic.Class + ":" + res.Panic.Func
+				}
+			}
+			c.NonTrivial = true
+			c.Inc("probe:pristine-compared-with-fresh-process")
+			if got := fmt.Sprintf("%016x", harness.FNV([]byte(canon))); got != want {
+				c.Fail("mismatch", o.e.Name, "fresh-process", fmt.Sprintf("result after earlier runs and Pristine() differs from the result of the same call in a fresh process (%s vs %s): err=%s", got, want, res.Err))
+			}
+		},
+	}, {
+		Name: "histories", Phase: 1, Weight: 12,
 		N: func(tier string, seed uint64) uint64 {
 			if tier == "thorough" {
 				return 2000000
@@ -132,6 +203,10 @@ func init() {
 			harness.Pristine()
 		},
 	}}
+	// the comparison with fresh processes runs after the histories of the same worker
+	if len(p.Campaigns) == 3 {
+		p.Campaigns[1], p.Campaigns[2] = p.Campaigns[2], p.Campaigns[1]
+	}
 	Register(p)
 }
 
